@@ -278,6 +278,101 @@ func crossProducts() []struct{ q, vars string } {
 	return out
 }
 
+// subscription documents x directives on the root field / on a root fragment: field collection
+// evaluates @skip/@include, the single-root-field rule of validation does not, so the set of root
+// fields that executor.subscribe sees can be empty (or have two entries)
+func subscriptionProducts() []struct{ q, vars string } {
+	var out []struct{ q, vars string }
+	add := func(q, v string) { out = append(out, struct{ q, vars string }{q, v}) }
+	for _, d := range []string{"@skip(if:true)", "@skip(if:false)", "@include(if:false)", "@include(if:true)", "@skip(if:$on)", "@include(if:$on)",
+		"@skip(if:true) @include(if:true)", "@custom", "@custom(n:$on)"} {
+		for _, vars := range []string{`{"on":true}`, `{"on":false}`, `{}`, `{"on":null}`} {
+			for _, decl := range []string{"$on:Boolean!", "$on:Boolean=true", "$on:Boolean"} {
+				if !strings.Contains(d, "$on") && (decl != "$on:Boolean!" || vars != `{"on":true}`) {
+					continue
+				}
+				h := "subscription(" + decl + ")"
+				if !strings.Contains(d, "$on") {
+					h = "subscription"
+				}
+				add(h+"{sub "+d+"}", vars)
+				add(h+"{sub(x:1) "+d+"}", vars)
+				add(h+"{subo "+d+"{i}}", vars)
+				add(h+"{...F "+d+"} fragment F on Subscription{sub}", vars)
+				add(h+"{... "+d+"{sub}}", vars)
+				add(h+"{... on Subscription "+d+"{sub}}", vars)
+				add(h+"{a:sub "+d+" b:sub}", vars)
+				add(h+"{sub "+d+" sub}", vars)
+				add(h+"{__typename "+d+"}", vars)
+			}
+		}
+	}
+	return out
+}
+
+// value literals nested n deep.  The parser's recursion limit must bound them whatever surrounds
+// the nested value: a completed sibling before it (a list item, an object field), lists, objects,
+// both alternating; as an argument of a field or of a directive, as a variable's default value.
+func deepValue(kind string, n int) string {
+	var open, shut string
+	switch kind {
+	case "list":
+		open, shut = "[", "]"
+	case "list-sibling":
+		open, shut = "[0 ", "]"
+	case "obj":
+		open, shut = "{c:", "}"
+	case "obj-sibling":
+		open, shut = "{a:0 c:", "}"
+	}
+	if kind == "mixed" || kind == "mixed-sibling" {
+		var b strings.Builder
+		for i := 0; i < n; i++ {
+			if i%2 == 0 {
+				if kind == "mixed" {
+					b.WriteString("{l:")
+				} else {
+					b.WriteString("{a:0 l:")
+				}
+			} else {
+				if kind == "mixed" {
+					b.WriteString("[")
+				} else {
+					b.WriteString("[0 ")
+				}
+			}
+		}
+		b.WriteString("1")
+		for i := n - 1; i >= 0; i-- {
+			if i%2 == 0 {
+				b.WriteString("}")
+			} else {
+				b.WriteString("]")
+			}
+		}
+		return b.String()
+	}
+	return strings.Repeat(open, n) + "1" + strings.Repeat(shut, n)
+}
+
+func deepValueDoc(place, kind string, n int) string {
+	v := deepValue(kind, n)
+	switch place {
+	case "argument":
+		if strings.HasPrefix(kind, "list") {
+			return "{inp(l:" + v + ")}"
+		}
+		return "{inp(in:" + v + ")}"
+	case "default":
+		return "query($x:In=" + v + "){inp(in:$x)}"
+	case "directive":
+		return "{i @custom(n:" + v + ")}"
+	case "unclosed":
+		return "{inp(in:" + v[:len(v)/2]
+	}
+	return "{i}"
+}
+
 func deep(kind string, n int) string {
 	switch kind {
 	case "sel":
@@ -656,7 +751,11 @@ func stages(api, q, vars, op string, world, weirdErr int, fo *frontObs) sexp.Nod
 	return sexp.T("stages", out...)
 }
 
+// set by the case closure of a family whose documents must be refused by the parser
+var expectRefused bool
+
 const frontMaxBytes = 1500
+const frontMaxBytesDeep = 6000
 
 var hostileVS *sexp.Node
 
@@ -699,7 +798,16 @@ func emit(stream, api, q, vars, op string, world, weirdErr int) sexp.Node {
 		sexp.T("outcome", sexp.Sym(o.class), sexp.Str(o.detail)), respNode(o)}
 	// the front half of the composed model (scanner + parser + validator models from the bytes) is
 	// run on every request whose validation is the plain one (no cost rule) and whose text is short
-	if fo.ok && (api == "execute" || api == "subscribe") && len(q) <= frontMaxBytes {
+	if expectRefused {
+		// generator intent, checked by the oracle: a document nested far beyond the parser's
+		// recursion limit must be refused with a syntax error
+		fields = append(fields, sexp.T("expect", sexp.Sym("refused")))
+	}
+	limit := frontMaxBytes
+	if strings.HasPrefix(stream, "deep-value") {
+		limit = frontMaxBytesDeep
+	}
+	if fo.ok && (api == "execute" || api == "subscribe") && len(q) <= limit {
 		fields = append(fields, sexp.T("front",
 			sexp.T("vschema", hostileVSchema()),
 			sexp.T("vdep", sexp.L(sexp.Str("DateTime"), sexp.Str("LongInt"))),
@@ -741,6 +849,11 @@ func main() {
 			h.Case(func(*rng.R) sexp.Node { return emit("cross", "execute", c.q, c.vars, "", 0, 0) })
 			h.Case(func(*rng.R) sexp.Node { return emit("cross", "validate", c.q, c.vars, "", 0, 0) })
 		}
+		for _, c := range subscriptionProducts() {
+			c := c
+			h.Case(func(*rng.R) sexp.Node { return emit("cross-subscription", "subscribe", c.q, c.vars, "", 0, 0) })
+			h.Case(func(*rng.R) sexp.Node { return emit("cross-subscription", "execute", c.q, c.vars, "", 0, 0) })
+		}
 		// 4. depth and width
 		depths := []int{1, 10, 100, 499, 500, 501, 999, 1000, 1001, 1500, 5000}
 		if h.Thorough() {
@@ -762,6 +875,23 @@ func main() {
 					}
 					return emit("deep-"+k, "execute", deep(k, n), `{}`, "", 0, 0)
 				})
+			}
+		}
+		// 4b. nesting depth of value literals, around the parser's limit and far beyond it
+		vdepths := []int{1, 10, 100, 249, 250, 251, 333, 334, 499, 500, 501, 999, 1000, 1001, 1500, 3000}
+		if h.Thorough() {
+			vdepths = append(vdepths, 20000, 200000)
+		}
+		for _, place := range []string{"argument", "default", "directive", "unclosed"} {
+			for _, kind := range []string{"list", "list-sibling", "obj", "obj-sibling", "mixed", "mixed-sibling"} {
+				for _, n := range vdepths {
+					place, kind, n := place, kind, n
+					h.Case(func(*rng.R) sexp.Node {
+						expectRefused = n >= 2000 // the limit is 1000 productions
+						defer func() { expectRefused = false }()
+						return emit("deep-value-"+place, "execute", deepValueDoc(place, kind, n), `{}`, "", 0, 0)
+					})
+				}
 			}
 		}
 		// 5. operation names
